@@ -416,7 +416,19 @@ This command wraps "go %s". Below is its help:
 	}
 	sharedCache.BinaryContentID = decodeBuildIDHash(splitContentID(binaryBuildID))
 
-	if err := appendListedPackages(args, true); err != nil {
+	listArgs := args
+	if command == "run" && len(args) > 0 {
+		// "go run" takes one package, or a list of .go files,
+		// and everything after that is an argument for the program.
+		n := 1
+		if strings.HasSuffix(args[0], ".go") {
+			for n < len(args) && strings.HasSuffix(args[n], ".go") {
+				n++
+			}
+		}
+		listArgs = args[:n:n]
+	}
+	if err := appendListedPackages(listArgs, true); err != nil {
 		return nil, err
 	}
 
